@@ -267,10 +267,14 @@ fn builder_setters_touch_only_their_field() {
     let mut rng = Rng::new(33);
     for _ in 0..iters(300) {
         let (mut nc, mut mc, mut bi, mut bs, mut me, mut ig) = (1 + rng.below(100) as usize, 1 + rng.below(100) as i64, 64usize, 32 * 1024usize, false, false);
+        let mut cd = 2u64; // default cleanup interval (seconds)
         let mut b = CacheBuilder::<u64, u64>::new(nc, mc);
         let mut script = vec![format!("CacheBuilder::new({}, {})", nc, mc)];
         for _ in 0..(1 + rng.below(8)) {
-            match rng.below(9) {
+            match rng.below(12) {
+                9 => { b = b.set_hasher(std::collections::hash_map::RandomState::new()); script.push("set_hasher(..)".into()); }
+                10 => { b = b.set_key_builder(crate::DefaultKeyBuilder::default()); script.push("set_key_builder(..)".into()); }
+                11 => { cd = 1 + rng.below(9); b = b.set_cleanup_duration(Duration::from_secs(cd)); script.push(format!("set_cleanup_duration({}s)", cd)); }
                 0 => { nc = rng.below(50) as usize; b = b.set_num_counters(nc); script.push(format!("set_num_counters({})", nc)); }
                 1 => { mc = rng.below(50) as i64; b = b.set_max_cost(mc); script.push(format!("set_max_cost({})", mc)); }
                 2 => { bi = rng.below(50) as usize; b = b.set_buffer_items(bi); script.push(format!("set_buffer_items({})", bi)); }
@@ -282,15 +286,24 @@ fn builder_setters_touch_only_their_field() {
                 _ => { b = b.set_callback(crate::DefaultCacheCallback::default()); script.push("set_callback(..)".into()); }
             }
             let i = &b.inner;
-            if (i.num_counters, i.max_cost, i.buffer_items, i.insert_buffer_size, i.metrics, i.ignore_internal_cost) != (nc, mc, bi, bs, me, ig) {
-                fail("builder_setters_touch_only_their_field", "C20:builder.set_update_validator", &["C20", "C09"], "CacheBuilderCore setters", script.join("; "),
-                    format!("{:?}", (i.num_counters, i.max_cost, i.buffer_items, i.insert_buffer_size, i.metrics, i.ignore_internal_cost)), format!("{:?}", (nc, mc, bi, bs, me, ig)));
+            if (i.num_counters, i.max_cost, i.buffer_items, i.insert_buffer_size, i.metrics, i.ignore_internal_cost, i.cleanup_duration) != (nc, mc, bi, bs, me, ig, Duration::from_secs(cd)) {
+                fail("builder_setters_touch_only_their_field", "C20:builder.setters-touch-only-their-field", &["C20", "C01", "C02", "C04", "C05", "C07", "C08", "C09", "C13", "C15", "C16", "C17", "C18"], "CacheBuilderCore setters", script.join("; "),
+                    format!("{:?}", (i.num_counters, i.max_cost, i.buffer_items, i.insert_buffer_size, i.metrics, i.ignore_internal_cost, i.cleanup_duration)), format!("{:?}", (nc, mc, bi, bs, me, ig, Duration::from_secs(cd))));
                 return;
             }
         }
         let want_err = nc == 0 || mc == 0 || bs == 0;
         match b.finalize() {
-            Ok(c) => { let _ = c.close(); if want_err { fail("builder_setters_touch_only_their_field", "C20:finalize.rejects-zero-buffer-size", &["C20"], "CacheBuilder::finalize", script.join("; "), "Ok".into(), "Err".into()); return; } }
+            Ok(c) => {
+                // what finalize() built carries the configured values
+                let got = (c.policy.max_cost(), c.insert_buf_tx.capacity(), c.metrics.is_op());
+                let want = (mc, Some(bs), me);
+                if !want_err && got != want {
+                    fail("builder_setters_touch_only_their_field", "C20:finalize.parts-as-configured", &["C20", "C01", "C02", "C04", "C05", "C07", "C08", "C09", "C13", "C15", "C16", "C17", "C18"], "CacheBuilder::finalize", script.join("; "),
+                        format!("(max_cost, insert-buffer size, metrics) = {:?}", got), format!("{:?}", want));
+                    let _ = c.close(); return;
+                }
+                let _ = c.close(); if want_err { fail("builder_setters_touch_only_their_field", "C20:finalize.rejects-zero-buffer-size", &["C20"], "CacheBuilder::finalize", script.join("; "), "Ok".into(), "Err".into()); return; } }
             Err(_) => { if !want_err { fail("builder_setters_touch_only_their_field", "C20:finalize.rejects-zero-buffer-size", &["C20"], "CacheBuilder::finalize", script.join("; "), "Err".into(), "Ok".into()); return; } }
         }
     }
